@@ -64,7 +64,7 @@ func (c13) Budget(tier string) runner.Budget {
 
 func (c13) Describe() runner.Description {
 	return runner.Description{
-		Rule:        "each plan: group size n in [3,10] (the dev minimum to the maximum), seeded member ids and per-group secrets; the n*n share pieces produced by the node's DKG member objects are delivered in a seeded order with duplicates; then 1..4 messages are signed by every member and 2..5 collectors receive the shares in seeded arrival orders (dropping up to n-k, duplicates, late arrivals after recovery). Checked: all members derive the same group public key, equal to the sum of the dealers' public keys; every share verifies under the member's public share; the threshold equals ceil(51% n); every collector, under every seeded internal k-subset choice and share-map iteration order, recovers exactly H(m)^s for s = sum of the dealers' secrets, which verifies under the group public key; with fewer than k distinct shares nothing is produced; for n<=7 additionally EVERY k-subset is recovered directly; in 30% of the plans one more collector is fed by 2-4 concurrently scheduled handler tasks (own decoded copies of the shares) that also poll it: every signature handed out and the final one must be H(m)^s. distinct_nontrivial = distinct (n, arrival-order signature) pairs with more shares than the threshold.",
+		Rule:        "each plan: group size n in [3,10] (the dev minimum to the maximum), seeded member ids and per-group secrets; the n*n share pieces produced by the node's DKG member objects are delivered in a seeded order with duplicates; then 1..4 messages are signed by every member and 2..5 collectors receive the shares in seeded arrival orders (dropping up to n-k, duplicates, late arrivals after recovery). Checked: all members derive the same group public key, equal to the sum of the dealers' public keys; every share verifies under the member's public share; the threshold equals ceil(51% n); every collector, under every seeded internal k-subset choice and share-map iteration order, recovers exactly H(m)^s for s = sum of the dealers' secrets, which verifies under the group public key; with fewer than k distinct shares nothing is produced; for n<=7 additionally EVERY k-subset is recovered directly; in 30% of the plans one more collector is fed by 2-4 concurrently scheduled handler tasks (own decoded copies of the shares; each verifies the sender's block share and beacon share - two messages - before filing them in two collectors) that also poll it: every signature handed out and the final one must be H(m)^s. distinct_nontrivial = distinct (n, arrival-order signature) pairs with more shares than the threshold.",
 		Assumptions: []string{"the reference signature H(m)^s is computed with the repository's Sign on the independently summed secret (BLS uniqueness makes it the only signature valid under the group key; verification soundness itself is property C14, not applicable here)"},
 		Real:        []string{"consensus/logical/group_create.groupNodeInfo (DKG member)", "consensus/groupsig (ShareSeckey, AggregateSeckeys/Pubkeys, Sign, VerifySig, RecoverGroupSignature, Lagrange recovery)", "consensus/model.GroupSignGenerator", "consensus/base.Rand (seeded via hook)"},
 		Stub:        []string{"transport between members (simulated: reorder, duplicate, drop)", "the rest of the node (not booted)"},
@@ -302,9 +302,17 @@ func (c13) Exec(raw json.RawMessage, st *simrt.Stats, log *simrt.Log) *simrt.Vio
 			// one collector fed by concurrent message handlers: each task decodes its own copies of the shares
 			// it delivers (as a handler does with the bytes of a message), adds them, and polls the collector
 			gen := model.NewGroupSignGenerator(k)
+			genB := model.NewGroupSignGenerator(k) // the beacon collector: same senders, another message
+			msgB := sha256.Sum256([]byte(fmt.Sprintf("beacon-%d", p.Seed)))
+			refB := groupsig.Sign(*groupSecret, msgB[:]).Serialize()
 			wire := make([][]byte, n)
+			wireB := make([][]byte, n)
+			pkWire := make([][]byte, n)
 			for i := range shares {
 				wire[i] = shares[i].Serialize()
+				sk := members[i].SignSecKey()
+				wireB[i] = groupsig.Sign(sk, msgB[:]).Serialize()
+				pkWire[i] = groupsig.GeneratePubkey(sk).Serialize()
 			}
 			refBytes := ref.Serialize()
 			var cviol *simrt.Violation
@@ -319,9 +327,21 @@ func (c13) Exec(raw json.RawMessage, st *simrt.Stats, log *simrt.Log) *simrt.Vio
 						if pos%p.Conc != t {
 							continue
 						}
+						// what a verify-message handler does: check the sender's block share and beacon share
+						// under the sender's public share (two different messages), then file both
 						sig := groupsig.DeserializeSign(wire[x])
+						sigB := groupsig.DeserializeSign(wireB[x])
+						pk := groupsig.ByteToPublicKey(pkWire[x])
+						simsched.Yield("c13.verify")
+						okA := groupsig.VerifySig(pk, msg[:], *sig)
+						simsched.Yield("c13.verify2")
+						okB := groupsig.VerifySig(pk, msgB[:], *sigB)
+						if (!okA || !okB) && cviol == nil {
+							cviol = viol(mi, "share-does-not-verify", "concurrent-handler", "member %d's genuine share (block %v, beacon %v) was rejected by a handler running concurrently with others", x, okA, okB)
+						}
 						simsched.Yield("c13.add")
 						gen.AddWitnessSign(ids[x], *sig)
+						genB.AddWitnessSign(ids[x], *sigB)
 						st.Ops++
 						simsched.Yield("c13.poll")
 						if gen.SignRecovered() {
@@ -344,6 +364,9 @@ func (c13) Exec(raw json.RawMessage, st *simrt.Stats, log *simrt.Log) *simrt.Vio
 			}
 			if cviol != nil {
 				return cviol
+			}
+			if !genB.SignRecovered() || !bytes.Equal(genB.GetGroupSign().Serialize(), refB) {
+				return viol(mi, "recovered-signature-differs", "concurrent-collector-final-beacon", "n=%d k=%d: after all shares arrived through %d concurrent handlers the beacon collector does not hold H(m')^s", n, k, p.Conc)
 			}
 			if !gen.SignRecovered() || !bytes.Equal(gen.GetGroupSign().Serialize(), refBytes) {
 				return viol(mi, "recovered-signature-differs", "concurrent-collector-final", "n=%d k=%d: after all %d shares arrived through %d concurrent handlers the collector does not hold H(m)^s", n, k, n, p.Conc)
